@@ -249,10 +249,7 @@ func c07Run(in *c07Input) *c07Obs {
 		obs.Skip = "hub push error"
 		return obs
 	}
-	if !th.fh.IsReady() {
-		obs.Skip = "hub not ready"
-		return obs
-	}
+	// a hub that is not ready yet is a legitimate start: the stream reads files until the hub can serve it
 	pushedCount := in.A0
 	obs.HubLowest = th.fh.LowestBlockNum()
 	if n, _, _, lib, err := th.fh.HeadInfo(); err == nil {
@@ -682,7 +679,29 @@ func c07Exec(raw json.RawMessage) (*Case, error) {
 	return cs, nil
 }
 
+// c07Corpus: fixed scenarios that always run first
+func c07Corpus(prop string) func() []any {
+	return func() []any {
+		// the hub becomes ready while the file source is past the fork point, sitting on the fork 13 <- 114 <- 115, while
+		// the merged files already hold the final blocks 14 and 15: the join must not be made on the hub's block NUMBER 15
+		// (found by the proof of c07_seamless_num: hypothesis files_agree, theorem c07_files_agree_needed)
+		b := func(n uint64) fkBlock { return fkBlock{ID: n, Num: n, Parent: n - 1, Lib: n - 2} }
+		var arr []fkBlock
+		for n := uint64(3); n <= 13; n++ {
+			arr = append(arr, b(n))
+		}
+		arr = append(arr, fkBlock{ID: 114, Num: 14, Parent: 13, Lib: 12}, fkBlock{ID: 115, Num: 15, Parent: 114, Lib: 13})
+		for n := uint64(14); n <= 24; n++ {
+			arr = append(arr, b(n))
+		}
+		// the hub starts with the one-block files 12 and the live block 13 (declared LIB 11 unknown: not ready); after 10
+		// delivered events (5..14) the fork blocks 114 and 115 arrive: ready, head 115, LIB 13
+		return []any{&c07Input{Prop: prop, First: 2, Kept: 5, Bundle: 10, Root: b(2), Arrival: arr, A0: 11, HubStart: 12, Merged: 20,
+			Mode: "num", Start: 5, Filter: "default", Pauses: []c07Pause{{After: 10, Push: 2}, {After: 12, Push: 8}}, Shape: "corpus/join-on-fork"}}
+	}
+}
+
 func init() {
-	props["C07"] = &Prop{Gen: c07Gen("C07"), Exec: c07Exec}
-	props["C13"] = &Prop{Gen: c07Gen("C13"), Exec: c07Exec}
+	props["C07"] = &Prop{Gen: c07Gen("C07"), Exec: c07Exec, Corpus: c07Corpus("C07")}
+	props["C13"] = &Prop{Gen: c07Gen("C13"), Exec: c07Exec, Corpus: c07Corpus("C13")}
 }
